@@ -65,7 +65,7 @@ func keyed(err error) (string, string) {
 	return "unkeyed", err.Error()
 }
 
-var crashKey = dsig.NewES256Key()
+var crashKey, crashKey2 = dsig.NewES256Key(), dsig.NewES256Key()
 
 // runPipeline executes the whole life-cycle on one input; every call is total.
 // crashCur, when set, names a file that always holds the input being processed: if the process is aborted
@@ -128,6 +128,21 @@ func runPipeline(data []byte) []crashStep {
 			return nil // verification of unsigned envelopes is not part of the life-cycle here
 		}
 		return env.Verify(crashKey.Public())
+	})
+	call("VerifyPartly", func() error {
+		// signed by two keys, verified with one of them: a refusal that reports on each signature
+		if !env.Signed() {
+			return nil
+		}
+		raw, err := json.Marshal(env)
+		if err != nil {
+			return nil
+		}
+		e2 := new(gobl.Envelope)
+		if json.Unmarshal(raw, e2) != nil || e2.Sign(crashKey2) != nil {
+			return nil
+		}
+		return e2.Verify(crashKey.Public())
 	})
 	call("Correct", func() error {
 		if _, ok := env.Extract().(*bill.Invoice); !ok {
